@@ -24,6 +24,7 @@ class RunCtx:
         self.stats = collections.Counter()
         self.sim = None  # kernel.Sim when a process simulation is active
         self.clock = None  # seams.FakeClock for single-process timed runs
+        self.cores = None  # simulated number of CPU cores (None = the real one)
         self.eval_cost = 0.0  # simulated seconds charged per posterior evaluation
         self.grad_cost = 0.0
         self.eval_budget = None  # evaluations left for the operation in progress (None = unlimited)
